@@ -59,6 +59,25 @@ def selftest_endguard():
     return bad >= 2 and good >= 4
 
 
+def selftest_iterinv():
+    import iterinv
+    u = extract.load_selftest('iterinv')
+    bad = good = 0
+    for f in u.functions.values():
+        if not f.tname.startswith('pos::'):
+            continue
+        r = iterinv.analyse(f)
+        if f.name.startswith('bad_'):
+            if not r:
+                return False
+            bad += 1
+        if f.name.startswith('good_'):
+            if r:
+                return False
+            good += 1
+    return bad >= 3 and good >= 4
+
+
 PROPS = {}
 
 PROPS['C13'] = {
@@ -357,13 +376,14 @@ PROPS['C04'] = {
 
 PROPS['C17'] = {
     'level': 'other', 'rules': p_memory.rules_c17,
-    'selftests': [('END-GUARD on selftest/pos/endguard.cpp', selftest_endguard)],
+    'selftests': [('END-GUARD on selftest/pos/endguard.cpp', selftest_endguard), ('ITER-INVALIDATION on selftest/pos/iterinv.cpp', selftest_iterinv)],
     'decides': [
         'END-GUARD over every pgm:: function and the C interface: no dereference or increment of an iterator on a path that has just established it equals end(), also across calls of member functions of the same object (a callee entered with the field at end() must re-test it first)',
         'SENTINEL: every level built by build() and every CompressedLevel key array ends with the sentinel on all construction paths, and no data key equals the sentinel (checks G1/G2 dominate the segmentation)',
         'CLAMP / CAP / N-CAP / KIND: the query key is clamped (no negative segment index), the position estimate is capped by the next intercept, hi is capped by n, the compressed segment index derives from a LAST_LE position',
         'SELECT-RANGE: EliasFanoPGMIndex::pred() hands ef.high_0_select a rank within the number of buckets on every path (the beyond-universe guard covers the incremented value)',
         'BACK-GUARD: front()/back() of a member container in a query only under an emptiness test or a recorded constructor invariant; SENTINEL-EXCLUDED (Elias-Fano constructor)',
+        'ITER-INVALIDATION: no single-definition iterator into a std::vector is read after a push_back/emplace_back/insert/resize/reserve/erase/clear of that vector that its definition reaches (re-definitions respected), and no closure holding such an iterator is passed to a call together with a closure that grows the vector',
     ],
     'not_decided': 'memory safety of the unchecked scans as a whole: it rests on numeric invariants (predictions within the window, intercepts <= n, top_level[j+1], ef.low[...] and loser-tree indices) that no static argument in reach bounds',
     'explanation': 'Clause-level static claim for C17: the structural part of memory safety (end-guards, sentinels, clamps and caps); out-of-bounds accesses that depend on numeric invariants are not claimed.',
